@@ -259,7 +259,8 @@ func (e *emitter) sparseDatabases(r *rand.Rand, dir, tier string) error {
 			}
 		}
 	} else {
-		scs = []sparseScenario{{65536, -3, "lock-beyond-then-inside"}}
+		// the second scenario runs only when the first one was quick (see below)
+		scs = []sparseScenario{{65536, -3, "lock-beyond-then-inside"}, {65536, 0, "lock-last-page"}}
 		switch os.Getenv("VERIF_LTX_SCENARIO") {
 		case "4096":
 			scs = []sparseScenario{{4096, -3, "lock-beyond-then-inside"}}
@@ -271,7 +272,12 @@ func (e *emitter) sparseDatabases(r *rand.Rand, dir, tier string) error {
 	}
 	_ = os.RemoveAll(dir)
 	defer os.RemoveAll(dir)
+	tStart := time.Now()
 	for i, sc := range scs {
+		if tier != "thorough" && i > 0 && time.Since(tStart) > 20*time.Second {
+			e.extra["skipped (time budget of the quick tier): "+sc.name]++
+			continue
+		}
 		t0 := time.Now()
 		d := filepath.Join(dir, fmt.Sprintf("s%d", i))
 		if err := os.MkdirAll(d, 0o755); err != nil {
